@@ -26,6 +26,7 @@ TIERS = {
 
 
 RUN_TIMEOUT = 300.0
+SHRINK_WALL = 45.0  # seconds of minimisation per reported violation
 
 
 def _worker_init() -> None:
@@ -92,7 +93,10 @@ def run_check(modname: str, tier: str, max_runs: int, chunk: int = 8,
     print(f"[{prop}] tier={tier} VERIF_SEED={bseed} src={kit.SRC} workers={kit.CPUS} "
           f"max_runs={max_runs} wall_cap={wall_cap}s", flush=True)
 
-    seeds = [kit.H(bseed, prop, i) for i in range(max_runs)]
+    if hasattr(mod, "make_seeds"):
+        seeds = mod.make_seeds(bseed, max_runs)
+    else:
+        seeds = [kit.H(bseed, prop, i) for i in range(max_runs)]
     chunks = [seeds[i : i + chunk] for i in range(0, len(seeds), chunk)]
     agg_stats: Dict[str, int] = {}
     digests_nontrivial = set()
@@ -106,6 +110,7 @@ def run_check(modname: str, tier: str, max_runs: int, chunk: int = 8,
     sample_items: List[Any] = []
     refs_total = 0
     seeds_run: List[int] = []
+    digest_by_seed: Dict[int, str] = {}
     stopped_early = False
 
     ctx = get_context("fork")
@@ -151,6 +156,8 @@ def run_check(modname: str, tier: str, max_runs: int, chunk: int = 8,
                     seeds_run.append(item["seed"])
                     kit.merge_counts(agg_stats, item["stats"])
                     digests_all.add(item["digest"])
+                    if len(digest_by_seed) < 64 and "violations" not in item:
+                        digest_by_seed[item["seed"]] = item["digest"]
                     if item["nontrivial"]:
                         digests_nontrivial.add(item["digest"])
                     states.update(item["states"])
@@ -190,7 +197,9 @@ def run_check(modname: str, tier: str, max_runs: int, chunk: int = 8,
                     f"reappear when its trace was re-executed")
                 continue
             try:
+                kit.set_deadline(SHRINK_WALL)
                 small = mod.shrink(trace, v["sig"])
+                kit.set_deadline(None)
                 final = mod.execute(small)
                 fv = [x for x in final["violations"] if x["sig"] == v["sig"]]
                 if not fv:
@@ -251,6 +260,22 @@ def run_check(modname: str, tier: str, max_runs: int, chunk: int = 8,
     }
     for k, s in extra_sets.items():
         coverage[f"distinct_{k}"] = len(s)
+    # determinism sample: part of every check (see sim/selftest.py)
+    n_det = int(os.environ.get("VERIF_DETERMINISM_SAMPLE", "6" if tier == "quick" else "48"))
+    sample = dict(list(digest_by_seed.items())[:n_det])
+    try:
+        from . import selftest
+
+        problems = selftest.verify(modname, tier, sample, per_process=1 if tier == "quick" else 4)
+    except kit.HarnessError as ex:
+        problems = [str(ex)]
+    coverage["determinism_selftest"] = {
+        "seeds_reexecuted": len(sample),
+        "how": "each re-executed in this process and as the first run of a fresh interpreter under "
+               "another PYTHONHASHSEED; digests compared with the batch's",
+        "mismatches": len(problems)}
+    for pr in problems:
+        harness_errors.append("HARNESS-NONDETERMINISM " + pr)
     kit.write_evidence(prop, tier, bseed, coverage, wall_s, n_viol, mod.ASSUMPTIONS)
     print(f"[{prop}] runs={runs} distinct_nontrivial={len(digests_nontrivial)} "
           f"states={len(states)} transitions={len(transitions)} violations={n_viol} "
